@@ -477,6 +477,12 @@ func checkC05(e *Engine, r *Report) {
 		r.Check(okGU && n >= 2, "ApplyMessageWithConfig › response and transient gas = execResult.UsedGas", e.Pos(amwc.Pos()), "GasUsed: execResult.UsedGas", "the gas used reported to consensus / stored per transaction is not the state transition's gas used")
 	})
 
+	r.Rule("R7", "SHAPE", "cumulative gas of a receipt is the running sum over the block's Ethereum transactions: own gas used + the per-transaction gas slots of all earlier transactions (which include the gas limit recorded for transactions that failed after the ante handler)", 1, func() {
+		loopOK, ownOK := cumulativeGasShape(e)
+		amwc := e.Fn(pkgEvmKeeper, "Keeper.ApplyMessageWithConfig")
+		r.Check(loopOK && ownOK, "ApplyMessageWithConfig › cumulative gas = own + Σ previous slots", e.Pos(amwc.Pos()), "gasUsed + Σ_{i<TxIndex} slot(i)", "the receipt's cumulative gas is not this transaction's gas plus the gas slots of the transactions before it (e.g. a running total kept in a store branch that is discarded when a transaction fails outside the EVM)")
+	})
+
 	r.Rule("R6", "SHAPE", "ResetGasMeterAndConsumeGas refunds exactly GasConsumed() of the context's gas meter and then consumes its gasUsed parameter on the same meter", 1, func() {
 		ctxP, usedP := ssa.Value(reset.Params[1]), ssa.Value(reset.Params[2])
 		onMeter := func(c ssa.CallInstruction) bool {
